@@ -116,7 +116,7 @@ class C10(BaseCheck):
              'scales.timer_queue:TimerQueue.Schedule')
   REQUIRED_ANCHORS = ANCHORS
   REQUIRED_CLASSES = ('new-head-while-sleeping', 'past-deadline', 'tie', 'cancel-head',
-                      'boundary', 'far-deadlines', 'deadline-exactly-on-tick', 'action-raises', 'action-blocks', 'long-schedule-history', 'many-actions-still-running')
+                      'boundary', 'far-deadlines', 'deadline-exactly-on-tick', 'action-raises', 'action-blocks', 'long-schedule-history', 'many-actions-still-running', 'queue-clock-differs-from-wall-clock')
   ASSUMPTIONS = ('virtual clock: no timer lateness is injected (J=0), so lateness bounds are exact',
                  'rounded deadline computed in exact rationals; actions within 2us of a grid '
                  'point are exempt from the ordering clause only')
@@ -178,7 +178,11 @@ class C10(BaseCheck):
     from scales.timer_queue import TimerQueue
     res = rng.choice([0.01, 0.01, 0.01, 0.1, 1, None, 0, 0.25, 0.5])
     reff = res or 0.01
-    q = TimerQueue(time_source=env.clock.time, resolution=res)
+    # the queue's own clock: in some cases it is not the wall clock (an offset clock, a clock in another epoch);
+    # every instant below is read from it
+    off = rng.choice([-0.4, 0.4, -37.0, 3600.5, -86400.0]) if idx % 5 == 1 else 0.0
+    qnow = (lambda: env.clock.time() + off) if off else env.clock.time
+    q = TimerQueue(time_source=qnow, resolution=res)
     if idx % 6 == 4 and hasattr(q, '_seq'):
       # a queue with a history: it has scheduled (and run) almost 2^16 / 2^31 / 2^32 / 2^63 actions before
       q._seq = rng.choice([2 ** 16, 2 ** 31, 2 ** 32, 2 ** 63]) - rng.randint(1, 12)
@@ -200,8 +204,8 @@ class C10(BaseCheck):
     if boundary:
       races.add('boundary')
       # start the whole case on a grid point
-      g = math.ceil(env.now / reff) * reff
-      env.run_until(g)
+      g = math.ceil(qnow() / reff) * reff
+      env.run_until(g - off)
 
     misbehave = rng.random() < 0.3     # in these cases some actions raise or block after starting
 
@@ -212,7 +216,7 @@ class C10(BaseCheck):
       how = rng.choice(['raise', 'block', None, None]) if misbehave else None
 
       def act():
-        a['runs'].append((env.now, env.emit('timer.run', aid=a['id'])['seq']))
+        a['runs'].append((qnow(), env.emit('timer.run', aid=a['id'])['seq']))
         if how == 'raise':
           races.add('action-raises')
           raise ActionBoom('action %d' % a['id'])
@@ -243,22 +247,22 @@ class C10(BaseCheck):
           elif kind < 0.6 and actions:
             # tie with an existing pending action
             other = rng.choice(actions)
-            delta = other['T'] - env.now
+            delta = other['T'] - qnow()
           else:
             delta = rng.random() * rng.choice([2, 10, 50]) * reff * far_scale
           if boundary and rng.random() < 0.7:
             delta = round(delta / reff) * reff
-          T = env.now + delta
+          T = qnow() + delta
           if boundary and res in (0.25, 0.5, 1) and rng.random() < 0.7:
             # a deadline that lies exactly on a tick of the resolution (whole seconds on the 1 s
             # queue): it is its own rounded deadline
-            T = math.floor(env.now) + round((T - math.floor(env.now)) / res) * res
+            T = math.floor(qnow()) + round((T - math.floor(qnow())) / res) * res
             races.add('deadline-exactly-on-tick')
           hd = head_deadline()
-          a = dict(id=len(actions) + 1, T=T, sched_vt=env.now, cancel_vt=None,
+          a = dict(id=len(actions) + 1, T=T, sched_vt=qnow(), cancel_vt=None,
                    cancel_seq=None, runs=[], prod=pi, slice=slices[0])
           lo, hi = rounded_bounds(T, res)
-          if hd is not None and hi < hd - EPS and hd > env.now:
+          if hd is not None and hi < hd - EPS and hd > qnow():
             races.add('new-head-while-sleeping')
           for o in actions:
             if not o['runs'] and o['cancel_vt'] is None and abs(o.get('R_hi0', 1e99) - hi) < EPS:
@@ -277,7 +281,7 @@ class C10(BaseCheck):
               hd = head_deadline()
               if hd is not None and abs(hd - a['R_hi0']) < EPS:
                 races.add('cancel-head')
-            a['cancel_vt'] = env.now
+            a['cancel_vt'] = qnow()
             a['cancel_seq'] = env.emit('timer.cancel', aid=a['id'])['seq']
           else:
             races.add('double-cancel')
@@ -297,24 +301,24 @@ class C10(BaseCheck):
       # many actions that have started and not finished yet (each of them waits for something): the
       # actions that come due afterwards are nobody's business but the queue's
       races.add('many-actions-still-running')
-      T0 = env.now + reff
+      T0 = qnow() + reff
       for _i in range(rng.choice([130, 200])):
-        a = dict(id=len(actions) + 1, T=T0, sched_vt=env.now, cancel_vt=None, cancel_seq=None, runs=[], prod=-1, slice=0)
+        a = dict(id=len(actions) + 1, T=T0, sched_vt=qnow(), cancel_vt=None, cancel_seq=None, runs=[], prod=-1, slice=0)
         lo, hi = rounded_bounds(T0, res)
         a['R_hi0'] = hi
         a['sched_seq'] = env.emit('timer.schedule', aid=a['id'], T=T0)['seq']
         actions.append(a)
 
         def act(a=a):
-          a['runs'].append((env.now, env.emit('timer.run', aid=a['id'])['seq']))
+          a['runs'].append((qnow(), env.emit('timer.run', aid=a['id'])['seq']))
           gevent.sleep(400 * reff * far_scale + 5.0)
         handles.append((a, q.Schedule(T0, act)))
     per = max(1, nops // nprod)
     gs = [gevent.spawn(producer, i, per) for i in range(nprod)]
     gevent.joinall(gs)
-    last = max([a['R_hi0'] for a in actions] + [env.now])
-    env.run_until(last + 3 * reff + 0.5)
-    end_vt = env.now
+    last = max([a['R_hi0'] for a in actions] + [qnow()])
+    env.run_until(last - off + 3 * reff + 0.5)
+    end_vt = qnow()
     q._worker.kill(block=False)
     env.settle()
 
@@ -328,7 +332,8 @@ class C10(BaseCheck):
         e['type'], e['value']), {'res': res}, e)
     nrun = sum(1 for a in actions if a['runs'])
     out.nontrivial = nrun > 0 and bool(races)
-    out.classes = sorted(races | ({'long-schedule-history'} if self._long_history else set()))
+    out.classes = sorted(races | ({'long-schedule-history'} if self._long_history else set())
+                         | ({'queue-clock-differs-from-wall-clock'} if off else set()))
     out.extra = {'actions': len(actions), 'actions_run': nrun,
                  'cancels': sum(1 for a in actions if a['cancel_vt'] is not None),
                  'diag_seq_ne_peeked_logs': len(crit)}
